@@ -389,6 +389,24 @@ func (rt *runtime) convertCallParameter(v Value, t reflect.Type) (reflect.Value,
 				return gao.value, nil
 			}
 		}
+
+		// A bridged Go slice or map handed back to Go is the live value (slices
+		// alias their backing array, maps alias), not an element-wise copy. An
+		// interface{} parameter keeps going through export below, as before.
+		if t.Kind() != reflect.Interface {
+			if gslo, ok := v.object().value.(*goSliceObject); ok && gslo.value.Type().AssignableTo(t) {
+				return gslo.value, nil
+			}
+			if gmo, ok := v.object().value.(*goMapObject); ok && gmo.value.Type().AssignableTo(t) {
+				return gmo.value, nil
+			}
+			// A struct bridged by pointer passed where the struct itself is
+			// expected: Go's by-value copy of the pointee.
+			if gso, ok := v.object().value.(*goStructObject); ok && gso.value.Kind() == reflect.Ptr &&
+				!gso.value.IsNil() && gso.value.Type().Elem().AssignableTo(t) {
+				return gso.value.Elem(), nil
+			}
+		}
 	}
 
 	tk := t.Kind()
